@@ -64,3 +64,12 @@ Theorem C04_error_is_class_of_cause : forall s e, Reach s -> run s = RReturned e
   (exists c, dec_of c = dec s /\ err_is (class_of c) e = true) \/ (dec s = DQuit /\ ext s = true /\ e = EKilled).
 Proof. exact returned_error_is_class_of_cause. Qed.
 Print Assumptions C04_error_is_class_of_cause.
+
+(* ---- the other direction of the tie (code within model): the check evaluates Proof/SkelTrace.accepts on the callback
+   sequences of real runs; an accepted sequence is a run of the skeleton - invisible steps, then a step entering the
+   next observed callback, and so on *)
+From BT Require Import Proof.SkelTrace.
+Theorem C04_accepted_trace_is_a_model_run : forall G filtered S os, accepts_from G filtered S os = true ->
+  exists s0 s', In s0 S /\ cpath G filtered s0 os s'.
+Proof. exact accepts_sound. Qed.
+Print Assumptions C04_accepted_trace_is_a_model_run.
